@@ -595,9 +595,11 @@ def main():
             return 2
         # confirmations that keep a check from alarming on somebody else's property
         if prop == "C07" and f.kind in ("crash", "guard-page"):
-            # a crash belongs to C07 only if it depends on the detected CPU features: same program, one mask for both
+            # a crash belongs to C07 only if it depends on the detected CPU features: the same program with the first
+            # mask for both executions, and with the second mask for both: exactly one of the two must crash
             r2, e2, _ = replay_once(binary, path, ["--same-mask"])
-            if e2 or r2 is None:
+            r3, e3, _ = replay_once(binary, path, ["--same-mask-b"])
+            if bool(e2 or r2 is None) == bool(e3 or r3 is None):
                 other["crash-independent-of-dispatch:%s" % f.op] += len(fl_list)
                 continue
         if prop == "C15" and f.kind in ("crash", "guard-page"):
